@@ -16,14 +16,148 @@ import (
 
 const c29ListF = lruT + ".evictList"
 
-// c29IsBack: e denotes evictList.Back() (directly or through a single-definition local).
-func c29IsBack(f *core.FuncInfo, e ast.Expr) bool {
+// c29IsBack: e denotes evictList.Back() — the least recently used element, nil exactly when the list is
+// empty — directly, through a single-definition local, through a variable all of whose definitions are
+// evictList.Back() and one of which precedes the use on every path, or as the result of an accessor
+// (`elem, found := c.oldest()`) every return of which gives evictList.Back(), or nil after having found
+// the list empty.
+func c29IsBack(f *core.FuncInfo, e ast.Expr) bool { return c29IsBackD(f, e, 2) }
+
+func c29IsBackCall(f *core.FuncInfo, e ast.Expr) bool {
 	call := isCallTo(f, e, "container/list.List.Back")
 	if call == nil {
 		return false
 	}
 	sel, ok := ast.Unparen(call.Fun).(*ast.SelectorExpr)
 	return ok && fieldNameOf(f, sel.X) == c29ListF
+}
+
+func c29IsBackD(f *core.FuncInfo, e ast.Expr, depth int) bool {
+	if e == nil {
+		return false
+	}
+	if c29IsBackCall(f, e) {
+		return true
+	}
+	if depth <= 0 {
+		return false
+	}
+	// the accessor called in place: use(c.oldest())
+	if call, ok := ast.Unparen(e).(*ast.CallExpr); ok {
+		return c29ResultIsBack(f, call, 0, depth)
+	}
+	v := varOfRaw(f, e)
+	if v == nil || v.IsField() {
+		return false
+	}
+	if call, idx, _, ok := c30CallDef(f, v); ok {
+		return c29ResultIsBack(f, call, idx, depth)
+	}
+	// a variable (e.g. a named result) assigned only from evictList.Back(), on every path to its use
+	var defs []core.Point
+	for _, a := range assignsToVar(f, v) {
+		if a.RHS == nil {
+			if _, isSpec := a.Stmt.(*ast.ValueSpec); isSpec {
+				continue
+			}
+			return false
+		}
+		if as, ok := a.Stmt.(*ast.AssignStmt); ok && (len(as.Lhs) != len(as.Rhs) || (as.Tok != token.ASSIGN && as.Tok != token.DEFINE)) {
+			return false
+		}
+		if !c29IsBackCall(f, a.RHS) {
+			return false
+		}
+		defs = append(defs, a.Pt)
+	}
+	if len(defs) == 0 {
+		return false
+	}
+	for _, l := range allLits(f) {
+		if len(assignsToVar(l, v)) > 0 {
+			return false
+		}
+	}
+	use, ok := f.PointOf(e)
+	if !ok {
+		return false
+	}
+	dominated, _ := f.MustPassBefore(defs, use)
+	return dominated
+}
+
+// c29Nest bounds the nesting of accessor look-through (mutually recursive accessors).
+var c29Nest int
+
+// c29ResultIsBack: result idx of the called module function is evictList.Back() on every return.
+func c29ResultIsBack(f *core.FuncInfo, call *ast.CallExpr, idx int, depth int) bool {
+	g, _ := c30CalleeInfo(f, call)
+	if g == nil || g == f || c29Nest > 4 {
+		return false
+	}
+	c29Nest++
+	defer func() { c29Nest-- }()
+	cases, ok := c30ResultCases(g, idx)
+	if !ok {
+		return false
+	}
+	_, empty := c29BackEvictions(g, 0)
+	for _, rc := range cases {
+		if c29IsBackD(g, rc.Expr, depth-1) {
+			continue
+		}
+		if core.IsNil(g.Info(), rc.Expr) {
+			// nil is Back() when the list has been found empty on the way to this return
+			if _, found := (core.PathQuery{F: g, From: g.Entry(), Target: core.PointSet(rc.Pt), AvoidEdge: empty}).Find(); !found {
+				continue
+			}
+		}
+		return false
+	}
+	return true
+}
+
+// c29FoundEmpty: the fact is the false value of a boolean result of an accessor (held in a local, or
+// the call itself) every return of which that gives false has found the list empty.
+func c29FoundEmpty(f *core.FuncInfo, ft core.Fact, depth int) bool {
+	if depth <= 0 {
+		return false
+	}
+	cm, ok := core.NormCmp(ft)
+	if !ok || cm.R != nil || cm.Op != token.NEQ {
+		return false
+	}
+	call, idx, ok := c30CallOfBool(f, cm.L)
+	if !ok {
+		return false
+	}
+	g, _ := c30CalleeInfo(f, call)
+	if g == nil || g == f || c29Nest > 4 {
+		return false
+	}
+	c29Nest++
+	defer func() { c29Nest-- }()
+	cases, ok := c30ResultCases(g, idx)
+	if !ok {
+		return false
+	}
+	rt := g.Info().TypeOf(cases[0].Expr)
+	if rt == nil {
+		return false
+	}
+	if t, isBool := rt.Underlying().(*types.Basic); !isBool || t.Info()&types.IsBoolean == 0 {
+		return false
+	}
+	_, empty := c29BackEvictionsD(g, 0, depth-1)
+	for _, rc := range cases {
+		if val, isConst := c30ConstBool(g, rc.Expr); isConst && val {
+			continue
+		}
+		if _, found := (core.PathQuery{F: g, From: g.Entry(), Target: core.PointSet(rc.Pt), AvoidEdge: empty}).Find(); found {
+			return false
+		}
+	}
+	return true
 }
 
 // c29RemovedAt returns the expression denoting the list element that the call removes from the
@@ -75,6 +209,10 @@ func c29MustRemoveParam(g *core.FuncInfo, pv *types.Var, depth int) bool {
 // A call of a module function every returning path of which passes such a point or edge is itself such
 // a point.
 func c29BackEvictions(f *core.FuncInfo, depth int) ([]core.Point, func(*cfg.Block, int) bool) {
+	return c29BackEvictionsD(f, depth, 2)
+}
+
+func c29BackEvictionsD(f *core.FuncInfo, depth, lookDepth int) ([]core.Point, func(*cfg.Block, int) bool) {
 	var sites []core.Point
 	for _, cs := range f.Calls() {
 		if x := c29RemovedAt(f, cs, 2); x != nil {
@@ -108,7 +246,11 @@ func c29BackEvictions(f *core.FuncInfo, depth int) ([]core.Point, func(*cfg.Bloc
 	}
 	lenZero, lenNonPos := core.ParseLinCmp("len == 0"), core.ParseLinCmp("len <= 0")
 	empty := f.GuardEdges(func(ft core.Fact) bool {
-		// the list is empty: Len() == 0 (written in any way), or Back() == nil
+		// the list is empty: Len() == 0 (written in any way), Back() == nil, or the `found == false`
+		// result of an accessor that looked at Back()
+		if c29FoundEmpty(f, ft, lookDepth) {
+			return true
+		}
 		if lc, ok := core.NormLinCmp(f.Info(), ft, lenNamer); ok && (lc.Equal(lenZero) || lc.Equal(lenNonPos)) {
 			return true
 		}
